@@ -420,6 +420,13 @@ def parse_type(s):
     s = s.strip()
     if s in _named:
         return _named[s]
+    from . import spec as _S
+    if s in _S.TYPEDEFS:
+        _named[s] = parse_type(_S.TYPEDEFS[s])
+        return _named[s]
+    if s in _S.UNIONS:
+        _named[s] = Union(s, {k: parse_type(v) for k, v in _S.UNIONS[s].items()})
+        return _named[s]
     if s.startswith('Rec{') and s.endswith('}'):
         fields = {}
         for part in _split(s[4:-1]):
